@@ -36,8 +36,8 @@ out.append(f"\n{n_ok}/{n} as expected.\n")
 
 out.append("## 10. Independently seeded breaking changes (seeded/)\n")
 out.append("Produced by fresh sub-agents that were given only the text of one property and a private git worktree of /repo "
-           "(nothing from /verif); eight rounds (a-g and k, 151 changes; a twelfth change of round k, C06-k, was not kept: section 8b); rounds b-e, g and k were also told the earlier seeds' summaries and asked for a different "
-           "mechanism, code site and trigger (rounds g and k additionally got a description of what a strong tester already does; round k covers the ten properties whose round-g change had been missed, plus C05 and C07), round f used the original unbiased prompt again. Each was confirmed by `tools/seed.py verify` on scratch copies: patch applies, the repository's own suite stays green "
+           "(nothing from /verif); eight rounds (a-g and k, 159 changes; one change of round k, C06-k, was not kept: section 8b); rounds b-e, g and k were also told the earlier seeds' summaries and asked for a different "
+           "mechanism, code site and trigger (rounds g and k additionally got a description of what a strong tester already does; round k covers all twenty properties), round f used the original unbiased prompt again. Each was confirmed by `tools/seed.py verify` on scratch copies: patch applies, the repository's own suite stays green "
            "with the change, the demonstration exits 1 with it and 0 without it; then the property's quick check was run with "
            "`VERIF_REPO=<patched copy>`. 'first run' = verdict of the check as it was when the seed arrived; misses were answered by strengthening "
            "the generator/oracle (never by special-casing the seed), column 'now' is the verdict of the committed check.\n")
